@@ -170,6 +170,32 @@ theorem asm_refines {tb : List (Nat × BTR)} {manual : List ManualEdge} {fnAddr 
       (∀ x z, RValid tb x → FRun f (Ψ x) z → ∃ y, RRun tb manual x y ∧ Ψ y = z) :=
   assemble_refines hc hg h
 
+/-- **asm_refines_stuck** — runs that cannot continue correspond: with the Ψ of `asm_refines`, if the reference
+    cannot step from `y` (error in an operation, `Operation::Branch`, no enabled transfer, address without
+    translation result) then the function cannot leave Ψ y, and if the function cannot step from Ψ y then every
+    reference step from `y` stays at Ψ y (it is one of the unconditional edges that `merge` contracted). -/
+theorem asm_refines_stuck {tb : List (Nat × BTR)} {manual : List ManualEdge} {f : Function} {Ψ : RConfig → Config}
+    (hfwd : ∀ x y, RValid tb x → RRun tb manual x y → FRun f (Ψ x) (Ψ y))
+    (hbwd : ∀ x z, RValid tb x → FRun f (Ψ x) z → ∃ y, RRun tb manual x y ∧ Ψ y = z)
+    {y : RConfig} (hv : RValid tb y) :
+    ((∀ y', ¬ RStep tb manual y y') → ∀ z, FStep f (Ψ y) z → z = Ψ y) ∧
+    ((∀ z, ¬ FStep f (Ψ y) z) → ∀ y', RStep tb manual y y' → Ψ y' = Ψ y) := by
+  constructor
+  · intro hstuck z hs
+    obtain ⟨y', hr, hy'⟩ := hbwd y z hv (FRun.step (FRun.refl _) hs)
+    have : y' = y := by
+      clear hy'
+      induction hr with
+      | refl => rfl
+      | step _ hs' ih => subst ih; exact absurd hs' (hstuck _)
+    rw [← hy', this]
+  · intro hstuck y' hs
+    have hr := hfwd y y' hv (RRun.step (RRun.refl y) hs)
+    generalize Ψ y' = b at hr
+    induction hr with
+    | refl => rfl
+    | step _ hs' ih => subst ih; exact absurd hs' (hstuck _)
+
 /-- **translate_function_refines** — the same for the whole of `translate_function_extended` (work list +
     assembly): the table is the one the work list built; `Coherent.keys` comes for free. -/
 theorem translate_function_refines {oracle : Nat → Option (Res BTR)} {manual : List ManualEdge} {fnAddr fuel : Nat}
